@@ -75,6 +75,8 @@ type queryWitness struct {
 	Functions []string `json:"duckdb_table_functions"`
 	Unchecked []string `json:"unchecked_or_forbidden"`
 	Class     string   `json:"disguise_class"`
+	SubClass  string   `json:"denylist_subclass,omitempty"`
+	Via       string   `json:"read_via,omitempty"`
 	ArcHidden bool     `json:"arcnorm_predicted_hidden"`
 	Body      string   `json:"body_head,omitempty"`
 }
@@ -235,7 +237,7 @@ func runQuery(in *input, res *result) {
 		cls := tr.Lab
 		hidden := !tr.Avis || !tr.AvisI
 		if cls == "none" && tr.LabI != "none" && tr.LabI != "" {
-			cls = "denylist-quote-deletion:" + tr.LabI // ioDenylistNormalise deletes " and ` before masking
+			cls = "denylist-quote-deletion" // ioDenylistNormalise deletes " and ` before masking (sub-class tr.LabI)
 		}
 		if cls == "none" && tr.LabV != "none" {
 			cls = "validate:" + tr.LabV
@@ -314,11 +316,14 @@ func runQuery(in *input, res *result) {
 			if len(w.Unchecked) > 0 {
 				via = strings.SplitN(w.Unchecked[0], ":", 2)[0]
 			}
-			sig := "disguise:" + cls + "/" + via
+			// one signature per disguise class; the way the file is reached (via) is part of the witness
+			sig := "disguise:" + cls
 			if cls == "none" || !hidden {
 				sig = "disguise-unmodelled:" + cls + "/" + via
 			}
+			w.Via, w.SubClass = via, tr.LabI
 			res.Counts[kind]++
+			res.Counts["via_"+via]++
 			keys[sig+"|"+symtxt] = true
 			res.PerSig[sig]++
 			if res.PerSig[sig] == 1 || (w.Canary && res.PerSig["canary:"+sig] == 0) {
